@@ -40,6 +40,7 @@ def shards(tier, seed):
     out = [('filter', k, i, n) for i in range(n)]
     out += [('e2e', k, i, 8) for i in range(8)]
     out += [('det', tier, i, 16) for i in range(16)]
+    out += [('edit', tier, d, 0) for d in ('meta-pragma', 'no-language', 'lang-depths', 'iframe')]
     return out
 
 
@@ -257,7 +258,13 @@ def run_shard(desc):
     sv = common.bind()
     warnings.simplefilter('ignore')
     res = shard.Result()
-    if desc[0] == 'filter':
+    if desc[0] == 'edit':
+        # the language is a function of the tree as it is now: query, edit <meta>/lang, query again (shared with C04's edit layer)
+        from . import c04
+        c04.run_edits(sv, desc[1], desc[2], res)
+        for f in res.failures:
+            f['case']['layer'] = 'edit'
+    elif desc[0] == 'filter':
         run_filter(sv, desc[1], desc[2], desc[3], res)
     elif desc[0] == 'e2e':
         run_e2e(sv, desc[1], desc[2], desc[3], res)
@@ -271,6 +278,9 @@ def replay(case):
     import bs4
     sv = common.bind()
     warnings.simplefilter('ignore')
+    if case['layer'] == 'edit':
+        from . import c04
+        return c04.replay(case)
     if case['layer'] == 'filter':
         f, how = live_filter(sv)
         got, want = bool(f(case['range'], case['tag'])), RL.extended_filter(case['range'], case['tag'])
